@@ -19,7 +19,7 @@ STATIC = "static (SHADOW) planning cannot be imported here; plan-following and g
 
 PROPERTY_NOTES = {
     'C01': dict(assumptions=[S['S1'], S['S3'], S['S4'], MACHINE_RUN, ALG,
-                             "stability of 'this allocation process holds machine m' under the segments of other processes follows from their proved frames (each moves only its own machine); the pairwise stability VCs are not generated"],
+                             "stability of 'a suspended allocation keeps its task running and its machine held' is a discharged obligation family (stable:...) for every function / segment of the property except constructors, functions that run the event loop themselves and the private pool helpers (which break and restore the invariant in pairs)"],
                 not_covered=[]),
     'C02': dict(assumptions=[S['S1'], S['S3'], MACHINE_RUN, "list order is abstracted to multisets (positions only where a loop indexes a list)"],
                 not_covered=["'no reservation outstanding when a simulation ends' (needs a link between reservations and queued observations)"]),
@@ -27,7 +27,7 @@ PROPERTY_NOTES = {
                 not_covered=["for GreedySchedulingFromPlan the precedence clause is in terms of task ids (unique ids assumed)",
                              "the same-machine clause 'start >= recorded finish of the predecessor' (needs intra-step order, S7)"]),
     'C04': dict(assumptions=[ENV_RUN, ALG, MACHINE_RUN, S['S1'], S['S3']],
-                not_covered=["termination (C05)", "the task table: finished_task_time_data has one column per task of the finished map (unique ids assumed); its transposition and decoration in _generate_final_task_data are assumed (pandas)"]),
+                not_covered=["termination (C05)", "the transposition and decoration of the task table in Simulation._generate_final_task_data (pandas: assumed contract); finished_task_time_data itself is proved to have one column per task of the finished map (unique ids: C14)"]),
     'C06': dict(assumptions=[S['S2'], "float arithmetic exact", "the delay model's caller-side contract (result >= runtime) is proved under C15"],
                 not_covered=["monotonicity is the monotonicity of max(1, max(floor(w/s), floor(d/b))), stated in DESIGN.md and not a separate obligation"]),
     'C07': dict(assumptions=[S['S1'], S['S2'], "observation durations and (rounded) data rates are whole numbers (entity typing invariant, checked at every write)"],
